@@ -1005,6 +1005,69 @@ pub fn cmd_roundtrip(args: &Args) -> i32 {
                     Ok(back) if back == sv => {}
                     other => found.push(("roundtrip-differs:state_vector".into(), format!("{:?} -> {:?}", sv, other), format!("state_vector:{}", hex(&sv.encode_v1())))),
                 }
+                // sub-document options: bare value (v1 + v2) and carried by a sub-document inside an update
+                {
+                    use yrs::{Map, Options, OffsetKind};
+                    let mut o = Options::default();
+                    o.guid = format!("g{}", rng.u32(..)).into();
+                    o.collection_id = [None, Some(Arc::from("c")), Some(Arc::from("колл"))][rng.usize(0..3)].clone();
+                    o.offset_kind = if rng.bool() { OffsetKind::Bytes } else { OffsetKind::Utf16 };
+                    o.skip_gc = rng.bool();
+                    o.auto_load = rng.bool();
+                    o.should_load = rng.bool();
+                    let show = |guid: String, cid: Option<Arc<str>>, k: OffsetKind, skip_gc: bool, auto_load: bool| format!("guid={} collection={:?} offsets={:?} skip_gc={} auto_load={}", guid, cid, k, skip_gc, auto_load);
+                    let want = show(o.guid.to_string(), o.collection_id.clone(), o.offset_kind, o.skip_gc, o.auto_load);
+                    for v2 in [false, true] {
+                        evaluations += 1;
+                        cnt.inc("generated_doc_options");
+                        let b = if v2 { o.encode_v2() } else { o.encode_v1() };
+                        hashes.push(fnv(&b) ^ (v2 as u64));
+                        match if v2 { Options::decode_v2(&b) } else { Options::decode_v1(&b) } {
+                            Ok(back) => {
+                                let got = show(back.guid.to_string(), back.collection_id.clone(), back.offset_kind, back.skip_gc, back.auto_load);
+                                if got != want {
+                                    found.push(("roundtrip-differs:doc_options".into(), format!("Options {} -> {} ({})", want, got, if v2 { "v2" } else { "v1" }), format!("doc_options:{}", hex(&b))));
+                                }
+                            }
+                            Err(e) => found.push(("roundtrip-error:doc_options".into(), format!("Options {} cannot be decoded again: {}", want, e), format!("doc_options:{}", hex(&b)))),
+                        }
+                    }
+                    // the same options travelling with a sub-document to a peer
+                    let a = make_doc(1, false, false, false);
+                    let ra = Roots::of(&a);
+                    ra.m.insert(&mut a.transact_mut(), "sub", yrs::Doc::with_options(o.clone()));
+                    let (u1, u2) = {
+                        let txn = a.transact();
+                        (txn.encode_state_as_update_v1(&StateVector::default()), txn.encode_state_as_update_v2(&StateVector::default()))
+                    };
+                    for (v2, bytes) in [(false, &u1), (true, &u2)] {
+                        evaluations += 1;
+                        cnt.inc("generated_subdoc_transfers");
+                        let b = make_doc(2, false, false, false);
+                        let rb = Roots::of(&b);
+                        let u = if v2 { Update::decode_v2(bytes) } else { Update::decode_v1(bytes) };
+                        let got = match u {
+                            Err(e) => format!("decode error: {}", e),
+                            Ok(u) => {
+                                // (the transaction must be gone before the next one is opened)
+                                let applied = b.transact_mut().apply_update(u);
+                                match applied {
+                                    Err(e) => format!("apply error: {}", e),
+                                    Ok(()) => {
+                                        let sub = rb.m.get(&b.transact(), "sub");
+                                        match sub {
+                                            Some(yrs::Out::YDoc(d)) => show(d.guid().to_string(), d.collection_id(), d.offset_kind(), d.skip_gc(), d.auto_load()),
+                                            other => format!("no sub-document: {:?}", other.map(|_| "other value")),
+                                        }
+                                    }
+                                }
+                            }
+                        };
+                        if got != want {
+                            found.push(("subdoc-options-differ".into(), format!("a sub-document created with {} arrives at a peer ({}) as {}", want, if v2 { "v2" } else { "v1" }, got), format!("update:{}", hex(bytes))));
+                        }
+                    }
+                }
                 // sticky indexes of every scope kind
                 for si in [
                     StickyIndex::from_id(yrs::ID::new(yrs::ClientID::new((1u64 << 53) - 1), u32::MAX - 1), Assoc::Before),
